@@ -115,7 +115,7 @@ func OpenDriver(pkg *pkgbuild.Package, env *schema.Env, timeout time.Duration) (
 
 // OpenModel starts the model binary and sends the env/def lines.
 func OpenModel(path string, env *schema.Env, timeout time.Duration) (*Session, error) {
-	p := proc.Command([]string{path}, nil, timeout)
+	p := proc.Command(strings.Fields(path), nil, timeout)
 	if err := p.SetPreamble(env.Lines()); err != nil {
 		return nil, err
 	}
